@@ -198,3 +198,55 @@ Theorem C01_refine_handle : forall cfg pol user s sigma r sigma' resp,
   store_inv sigma'.
 Proof. exact ReprHandle.handle_refines. Qed.
 Print Assumptions C01_refine_handle.
+
+(* Whole request histories.  run_units lay us s runs the storage operations us one after the other WITHOUT faults and
+   is Some s' when each of them ends normally.  For every covered history of the handler model there are storage
+   operations such that, whenever they all end normally, the resulting tree represents exactly the ideal store after
+   the history.  (Partial: "ends normally" is a hypothesis here; it is proved for MKCOL/home creation, PROPPATCH,
+   DELETE of a collection and MKCALENDAR below, and checked by evaluation in the example; for operations with cache
+   tails -- upload, delete item, move -- a fault-free run can still raise when a reserved cache path is occupied by
+   a file, ReprProgress.upload_raises_when_cache_is_a_file, so their progress needs an invariant on reserved paths
+   that is not proved.) *)
+Require RV.Proofs.ReprHistory RV.Proofs.ReprProgress.
+Theorem C01_refine_history_partial : forall cfg pol user lay rs s sigma sigma' outs,
+  Repr.R s sigma -> store_inv sigma -> Fs.fs_inv_weak s -> Forall ReprHandle.covered rs ->
+  run_history cfg pol user sigma rs = (sigma', outs) ->
+  exists us, forall s', ReprHistory.run_units lay us s = Some s' -> Repr.R s' sigma' /\ Fs.fs_inv_weak s'.
+Proof. exact ReprHistory.history_refines. Qed.
+Print Assumptions C01_refine_history_partial.
+
+(* Non-vacuity, by evaluation on both sides: home creation, MKCALENDAR, PUT, MOVE, PUT, DELETE from the empty storage
+   folder -- every operation ends normally and the resulting tree represents the handler model's store. *)
+Theorem C01_refine_history_example :
+  ReprHistory.hx_sig6 = ReprHistory.hx_sigma /\
+  exists s', ReprHistory.run_units ReprExample.ex_lay ReprHistory.hx_units ReprExample.ex_s0 = Some s'
+    /\ Repr.R s' ReprHistory.hx_sigma /\ store_inv ReprHistory.hx_sigma /\ Fs.fs_inv_weak s'
+    /\ Fs.look s' (Repr.fp [10; 20; 102]) = Some (Fs.F (Repr.ocode ReprHistory.hx_ob2))
+    /\ Fs.look s' (Repr.fp [10; 20; 100]) = None /\ Fs.look s' (Repr.fp [10; 20; 101]) = None.
+Proof. exact ReprHistory.history_example. Qed.
+Print Assumptions C01_refine_history_example.
+
+(* Progress of fault-free runs, for the operations without cache tails. *)
+Theorem C01_progress_mkdir : forall lay p s0, p <> [] -> Fs.fs_inv_weak s0 -> Fs.look s0 (Fs.parent p) = Some Fs.D ->
+  (Fs.look s0 p = None \/ Fs.look s0 p = Some Fs.D) ->
+  snd (StorageOps.machine_run Prog.no_fault (StorageOps.unit_prog lay (StorageOps.UMkdir p)) (Prog.start s0)) = Prog.ONorm.
+Proof. exact ReprProgress.mkdir_progress. Qed.
+Print Assumptions C01_progress_mkdir.
+
+Theorem C01_progress_set_meta : forall lay c pv s0, c <> [] -> Fs.fs_inv_weak s0 -> Fs.look s0 c = Some Fs.D ->
+  Fs.look s0 (c ++ [Fs.Tmp 0]) = None -> Fs.look s0 (c ++ [Fs.Props]) <> Some Fs.D ->
+  snd (StorageOps.machine_run Prog.no_fault (StorageOps.unit_prog lay (StorageOps.USetMeta c pv)) (Prog.start s0)) = Prog.ONorm.
+Proof. exact ReprProgress.set_meta_progress. Qed.
+Print Assumptions C01_progress_set_meta.
+
+Theorem C01_progress_delete_coll : forall lay par x s0, Fs.fs_inv_weak s0 -> Fs.look s0 (par ++ [x]) = Some Fs.D ->
+  Fs.look s0 (par ++ [Fs.Tmp 0]) = None -> x <> Fs.Tmp 0 ->
+  snd (StorageOps.machine_run Prog.no_fault (StorageOps.unit_prog lay (StorageOps.UDeleteColl (par ++ [x]))) (Prog.start s0)) = Prog.ONorm.
+Proof. exact ReprProgress.delete_coll_progress. Qed.
+Print Assumptions C01_progress_delete_coll.
+
+Theorem C01_progress_create : forall lay par x pv s0, Fs.fs_inv_weak s0 -> Fs.look s0 par = Some Fs.D -> par <> [] ->
+  Fs.look s0 (par ++ [Fs.Tmp 0]) = None -> x <> Fs.Tmp 0 ->
+  snd (StorageOps.machine_run Prog.no_fault (StorageOps.unit_prog lay (StorageOps.UCreate (par ++ [x]) None pv)) (Prog.start s0)) = Prog.ONorm.
+Proof. exact ReprProgress.create_progress. Qed.
+Print Assumptions C01_progress_create.
